@@ -86,7 +86,7 @@ func RunIndex(c *core.Ctx) {
 	}()
 
 	// index content: duplicates, nil, mixed types
-	prof := gen.Pick(r, []gen.Profile{{Kind: gen.PSmallInt, Nil: 10}, {Kind: gen.PMixedNum, Nil: 10}, {Kind: gen.PString, Nil: 10}, {Kind: gen.PMixed}, {Kind: gen.PTime, Nil: 10}, {Kind: gen.PMixed, Nil: 20}, {Kind: gen.PArray}})
+	prof := gen.Pick(r, []gen.Profile{{Kind: gen.PSmallInt, Nil: 10}, {Kind: gen.PMixedNum, Nil: 10}, {Kind: gen.PString, Nil: 10}, {Kind: gen.PMixed}, {Kind: gen.PTime, Nil: 10}, {Kind: gen.PMixed, Nil: 20}, {Kind: gen.PArray}, {Kind: gen.PEdge}, {Kind: gen.PEdge, Nil: 10}})
 	n := gen.Pick(r, []int{0, 1, 3, 8, 20, 40})
 	entries := make([]idxEntry, n)
 	for i := range entries {
